@@ -144,11 +144,12 @@ def iter (g : Graph) (s : State) (w : Nat) : Step :=
       let mt : Int := nd.maxTries.getD 1
       let dur : Int := nd.timeout * mt                 -- seconds
       let q : Nat := max (dur.toNat / 10) 10           -- hundredths: round(max(dur/1000, 0.1), 2)
+      let qf : Float := Float.ofNat q / 100.0          -- the double Python's round(…, 2) yields
       let s :=
         if wd.occAt.contains next then
-          let s := if (wd.occWait : Int) > dur * 100 then s.setNd next (fun d => { d with bump := d.bump + 1 }) else s
-          s.setWd w (fun d => { d with occWait := d.occWait + q })
-        else s.setWd w (fun d => { d with occWait := 0 })
+          let s := if wd.occWait > Float.ofInt dur then s.setNd next (fun d => { d with bump := d.bump + 1 }) else s
+          s.setWd w (fun d => { d with occWait := d.occWait + qf })
+        else s.setWd w (fun d => { d with occWait := 0.0 })
       let s := s.setWd w (fun d => { d with occAt := if d.occAt.contains next then d.occAt else d.occAt ++ [next],
                                             path := [g.root], pc := .bounce })
       (s, [Event.sleep wid q], .suspend)
@@ -228,6 +229,10 @@ where
       let (s, e2, _) := startTest g s n w .main dir
       (s, evs ++ e2)
     else
+      -- a failed creation pre-step is accounted to the object root (its new results are appended)
+      let s := if phase == .pre then
+          s.setNd n (fun d => { d with results := d.results ++ (s.wd w).preResults.drop d.results.length })
+        else s
       let s := finishTraverse s n w
       match afterTraverse g s w n prev dir with
       | (s, e2, .raise what) =>
